@@ -126,15 +126,21 @@ function makeEnv (spec) {
 }
 
 function envVariants (code, tier) {
+  // most discriminating deviations first (a caller may take a prefix)
   const has = (re) => re.test(code)
   const out = [Object.assign({}, BASE_ENV)]
   const add = (d) => out.push(Object.assign({}, BASE_ENV, d))
-  if (has(/\ba\b/)) { add({ a: 'num' }); add({ a: 'null' }); add({ a: 'undef' }); add({ a: 'spy' }) }
-  if (has(/\bb\b/)) { add({ b: 'spy' }); if (tier === 'thorough') add({ b: 'null' }) }
-  if (has(/\bs\b/)) { add({ s: 'null' }); add({ s: 'undef' }); add({ s: 'spy' }) }
-  if (has(/\bf\(\)/)) { add({ f: 'mut' }); add({ f: 'throw' }) }
+  if (has(/\bf\(\)/)) add({ f: 'mut' })
+  if (has(/\ba\b/)) add({ a: 'spy' })
+  if (has(/\bs\b/)) add({ s: 'null' })
+  if (has(/\bf\(\)/)) add({ f: 'throw' })
+  if (has(/\ba\b/)) add({ a: 'null' })
   if (has(/\bc\b/)) add({ c: false })
+  if (has(/\bb\b/)) add({ b: 'spy' })
   if (has(/\bo\b/)) add({ o: 'null' })
+  if (has(/\ba\b/)) { add({ a: 'num' }); add({ a: 'undef' }) }
+  if (has(/\bs\b/)) { add({ s: 'undef' }); add({ s: 'spy' }) }
+  if (has(/\bb\b/) && tier === 'thorough') add({ b: 'null' })
   if (has(/\bg\(/) || has(/\bg\?\./)) add({ g: 'null' })
   if (has(/\ba\b/) && has(/\bb\b/)) add({ a: 'spy', b: 'spy' })
   if (has(/\ba\b/) && has(/\bf\(\)/)) add({ a: 'spy', f: 'mut' })
